@@ -33,7 +33,7 @@ Local Open Scope N_scope.
 var (
 	services = []string{"svc-a", "svc-b", "svc-c", "api"}
 	hostsLo  = []string{"foo.com", "bar.org", "a.b", "*.example.com", "", ":8080"}
-	paths    = []string{"/", "/foo", "/foo/bar", "/Foo", "/api/", "", "/z*"}
+	paths    = []string{"/", "/foo", "/foo/bar", "/Foo", "/api/", "", "/z*", "/fo", "/FOO/x", "/Z"}
 	dsts     = []string{"http://10.0.0.1:8080/", "http://10.0.0.2:8080", "https://host-1:443/x", "tcp://10.0.0.3:5000",
 		"HTTP://UPPER:80/", "http://h/%7Efoo", "http://[::1]:80/", "http://10.0.0.1:8080"}
 	badHosts = []string{"[", "a[.com", "{a,b.com", "\\", "A[.com", "*.ok.com", "{x,y}.com", "ok.com"}
@@ -692,6 +692,10 @@ var directed = []string{
 	"route add svc-a foo.com/ http://h/a#frag\nroute add svc-a bar.org/ ?",
 	// hosts: order of String(), empty host, port, globs
 	"route add svc-a b.com/ http://10.0.0.1:8080/\nroute add svc-a a.com/ http://10.0.0.1:8080/\nroute add svc-a /x http://10.0.0.1:8080/\nroute add svc-a :80 tcp://10.0.0.3:5000\nroute add svc-a c.com/z http://10.0.0.1:8080/\nroute add svc-a c.com/a http://10.0.0.1:8080/",
+	// route order of a host (Routes.Less since c1f03c0): lower-cased path first, bytes break ties
+	"route add svc-a foo.com/fo http://10.0.0.1:8080/\nroute add svc-a foo.com/Foo http://10.0.0.1:8080/\nroute add svc-a foo.com/foo http://10.0.0.1:8080/\nroute add svc-a foo.com/FOO http://10.0.0.1:8080/\nroute add svc-a foo.com/ http://10.0.0.1:8080/",
+	"route add svc-a foo.com/a/B http://10.0.0.1:8080/\nroute add svc-a foo.com/A/b http://10.0.0.1:8080/\nroute add svc-a foo.com/Z http://10.0.0.1:8080/\nroute add svc-a foo.com/a http://10.0.0.1:8080/\nroute add svc-a foo.com/a/b/c http://10.0.0.1:8080/",
+	"route add svc-a foo.com/Ab http://10.0.0.1:8080/\nroute add svc-a foo.com/aa http://10.0.0.1:8080/\nroute add svc-a foo.com/AB http://10.0.0.1:8080/\nroute add svc-a foo.com/ab http://10.0.0.1:8080/\nroute add svc-a foo.com/aB http://10.0.0.1:8080/",
 	"route add svc-a foo.com/[x http://10.0.0.1:8080/",
 	// host patterns that do not compile are rejected when the host is first added (c9fb527)
 	"route add svc-a [/ http://10.0.0.1:8080/",
